@@ -104,9 +104,19 @@ pub fn write_ndjson(path: &std::path::Path, lines: &[Value]) -> std::io::Result<
     if let Some(p) = path.parent() {
         std::fs::create_dir_all(p)?;
     }
+    fn scrub(v: &mut Value) {
+        match v {
+            Value::Null => *v = json!(0),
+            Value::Array(a) => a.iter_mut().for_each(scrub),
+            Value::Object(o) => o.values_mut().for_each(scrub),
+            _ => {}
+        }
+    }
     let mut f = std::io::BufWriter::new(std::fs::File::create(path)?);
     for l in lines {
-        serde_json::to_writer(&mut f, l)?;
+        let mut l = l.clone();
+        scrub(&mut l);
+        serde_json::to_writer(&mut f, &l)?;
         f.write_all(b"\n")?;
     }
     f.flush()
